@@ -20,7 +20,22 @@ def run(cx, chk):
     chk.rule("C04.R2", "payload exactly once: key/val of a freed node each moved out or dropped exactly once; recycled pair consumed once")
     chk.rule("C04.R3", "no mem::forget / ManuallyDrop / Box::leak anywhere; Box::into_raw only on freshly allocated EntryNodes")
     chk.rule("C04.R4", "purge of every cache purges every retained list; RawLRU::purge drains through remove_lru")
-    ntrun.report_findings(cx, chk, ("C04.",))
+    chk.rule("C04.R5", "when the eviction callback (user code whose failure is an expected event) runs, no raw node is in flight: unlinked, unindexed and owned by nothing")
+
+    def cb_extra(cfg, F, f, p, w):
+        from .lib.absint import fmt_val
+        for (i, e, kind, snap) in w.snapshots:
+            if kind != "cb":
+                continue
+            for n, st in snap.items():
+                if st.kind in ("unknown", "sentinel"):
+                    continue
+                if st.own == "raw" and not isinstance(st.link, tuple) and not isinstance(st.index, tuple):
+                    g = F.fns.get(e.get("fn")) or f
+                    chk.violation("C04.R5", "%s|%s" % (f["q"], st.src.split("#")[0]),
+                                  "the eviction callback runs while node %s is unlinked, unindexed and not owned (%s): if the callback panics the node and its key/value are never released"
+                                  % (fmt_val(n), "; ".join(st.hist[-3:])), g["span"]["file"], e.get("ln"), g["q"], ["root " + f["q"]], cfg)
+    ntrun.report_findings(cx, chk, ("C04.",), cb_extra)
     for cfg, F in cx.cfgs():
         n_into = 0
         for b in F.doc["bodies"]:
